@@ -15,6 +15,8 @@ from .common import stale_bindings
 
 DRIVERS = ("pytest_plugin.py::pytest_sessionfinish", "testing/_example.py::Example.run_inline")
 
+from .C04 import configure
+
 
 def check(repo: Repo, rep, tier):
     rep.not_decided = "equality of the files and reports the three drivers produce; what a real pytest collects beyond the default file patterns"
@@ -24,6 +26,7 @@ def check(repo: Repo, rep, tier):
     driver_state(repo, rep)
     ci_table(repo, rep)
     collect(repo, rep)
+    configure(repo, rep)
 
 
 def steps_of(repo: Repo, key: str) -> Dict[str, list]:
